@@ -12,9 +12,12 @@ HARNESS = ["vcr/pe/zz_verif_c12_test.go"]
 IAM_PKG, IAM_HARNESS = "auth/api/iam", ["auth/api/iam/zz_verif_c12_iam_test.go"]
 HOLDER_PKG, HOLDER_HARNESS = "vcr/holder", ["vcr/holder/zz_verif_c12_holder_test.go"]
 DISC_PKG, DISC_HARNESS = "discovery", ["discovery/zz_verif_c12_discovery_test.go"]
-HARNESSES = [(PKG, HARNESS, "c12"), (IAM_PKG, IAM_HARNESS, "c12iam"), (HOLDER_PKG, HOLDER_HARNESS, "c12holder"), (DISC_PKG, DISC_HARNESS, "c12disc")]
+POLICY_PKG, POLICY_HARNESS = "policy", ["policy/zz_verif_c12_policy_test.go"]
+IAMC_PKG, IAMC_HARNESS = "auth/client/iam", ["auth/client/iam/zz_verif_c12_iamclient_test.go"]
+HARNESSES = [(POLICY_PKG, POLICY_HARNESS, "c12policy"), (IAMC_PKG, IAMC_HARNESS, "c12iamclient"), (PKG, HARNESS, "c12"), (IAM_PKG, IAM_HARNESS, "c12iam"), (HOLDER_PKG, HOLDER_HARNESS, "c12holder"), (DISC_PKG, DISC_HARNESS, "c12disc")]
 
-REQUIRED = ["pe_total_match", "pe_total_build", "pe_total_validate", "pe_total_resolve_fields",
+REQUIRED = ["pe_total_match_raw", "pe_total_build_raw", "pe_total_credentials_required_raw", "pe_total_resolve_fields_raw",
+            "old_code_panics_on_nil_entry", "fact_nil_entries_checked", "pe_total_match", "pe_total_build", "pe_total_validate", "pe_total_resolve_fields",
             "match_sound", "filter_sound_and_complete",
             "forged_mapping_rejected", "surplus_entry_rejected", "forged_entry_rejected", "incomplete_map_rejected",
             "field_values_faithful", "two_capture_groups_is_error",
@@ -368,6 +371,9 @@ def run(ctx):
             pats = sorted({f["filter"]["pattern"] for d in pd["descs"] for f in d.get("fields", []) if "pattern" in f.get("filter", {})})
             report("C12:hang:matchFilter:regexp-without-timeout",
                    f"{kind} did not return within the watchdog time (patterns {pats}: catastrophic backtracking on a wallet value)", i)
+            continue
+        if kind == "nildef" and "panic:" in line:
+            report("C12:panic:nil-entry-in-definition", f"a definition with a nil (JSON null) input descriptor / submission requirement panics: {line}", i)
             continue
         if " panic:" in line:
             site = line.split("panic:", 1)[1].split()[0]
@@ -796,6 +802,30 @@ def run(ctx):
             counts["discovery:fields-checked"] += 1
         except Undecided:
             counts["oracle-undecided"] += 1
+
+    # producers of a PresentationDefinition that do not go through ParsePresentationDefinition: can null entries reach Match?
+    producer_lines = []
+    for pkg, files, name, test, outfile in ((POLICY_PKG, POLICY_HARNESS, "c12policy", "TestVerifC12Policy", "producers.policy.out"),
+                                            (IAMC_PKG, IAMC_HARNESS, "c12iamclient", "TestVerifC12IamClient", "producers.iamclient.out"),
+                                            (DISC_PKG, DISC_HARNESS, "c12disc", "TestVerifC12DiscoveryProducers", "producers.discovery.out")):
+        b = ctx.go_test_binary(pkg, files, name + "p")
+        if b is None:
+            ctx.oblige("harness-builds:" + name + ":producers", False, ctx.harness_error[-800:])
+            continue
+        rc3, log3, _ = ctx.run_harness(b, test, {}, outdir=out, timeout=600, cwd=os.path.join(vlib.REPO, pkg))
+        ctx.oblige("harness-runs:" + name + ":producers", rc3 == 0, log3[-800:])
+        if rc3 == 0:
+            producer_lines += [l for l in ctx.read_lines(os.path.join(out, outfile)) if l]
+    for pl in producer_lines:
+        counts["producer:" + pl.split(" -> ")[-1]] += 1
+        if "Match-panics" in pl:
+            sig = "C12:panic:nil-entry-in-definition"
+            if sig not in seen_sig:
+                seen_sig[sig] = ctx.violation(sig, "a producer that bypasses schema validation hands Match a definition with a nil entry and Match panics: " + pl,
+                                              "panic-nil-entry-in-definition.producer.txt", "\n".join(producer_lines) + "\n")
+            if seen_sig[sig]:
+                oracle_bad += 1
+    ctx.cov["producers"] = producer_lines
 
     ctx.oblige("oracle:reference-matcher(impl)", oracle_bad == 0, f"{oracle_bad} disagreements with the reference matcher / panics")
 
